@@ -55,6 +55,9 @@ class Gen:
         self.size = size
         self.p = Program()
         self.oneline = 0        # > 0 while generating the line of a short-if
+        self.blk = 0            # block nesting depth
+        self._si_blk = -9       # block depth at which the innermost enclosing short-if stands
+        self._is_last = False   # generating the last statement of the current block
         self.allow = set(allow)  # optional features: 'nested_shortif', 'break_mid', 'qmark'
 
     # ---- tokens
@@ -278,6 +281,7 @@ class Gen:
         if self.oneline:
             n = min(n, 2)
         prev_open = False      # the previous statement could absorb a following '(' / string / table
+        self.blk += 1
         for k in range(n):
             while self.chance(0.08):
                 self.p.features.add('semicolon')
@@ -289,7 +293,14 @@ class Gen:
                 self.p.features.add('break-not-last')
                 items.append(N('StatBreak', [self.kw(b'break')]))
             mark = len(self.p.toks)
+            self._is_last = (k == n - 1)
             st = self.stat(d, in_loop)
+            self._is_last = False
+            if self.oneline and st[1] == TAG['StatIf'] and st[2]:
+                # a one-line if nested in the line of another one: it owns the rest of the line
+                items.append(st)
+                self.blk -= 1
+                return N('Chunk', [('L', items)])
             # Lua's call ambiguity: a statement starting with '(' must be separated by ';'
             if self.p.toks[mark][1] == b'(':
                 semi = ('W', mark)
@@ -302,6 +313,7 @@ class Gen:
             if self.chance(0.15):
                 self.p.features.add('semicolon')
                 items.append(self.kw(b';'))
+        self.blk -= 1
         last = self.rng.random()
         if not top or self.chance(0.3):
             if last < 0.15:
@@ -469,7 +481,7 @@ class Gen:
         return N('StatIf', [i, ('L', pairs), self.kw(b'end')])
 
     def st_shortif(self, d, in_loop):
-        if self.oneline and 'nested_shortif' not in self.allow:
+        if self.oneline and ('nested_shortif' not in self.allow or not self._is_last or self.blk != self._si_blk + 1):
             return self.st_assign(d)
         self.p.features.add('short-if')
         if self.oneline:
@@ -478,27 +490,35 @@ class Gen:
         if not outer:
             self._line_start = len(self.p.toks)
         self.oneline += 1
+        saved_si = self._si_blk
+        self._si_blk = self.blk
         i = self.kw(b'if')
         cond = self.paren(d + 1)
         # body: 1-2 statements on the line; the block generator honours self.oneline
-        b = self.nonempty_block(d + 1, in_loop)
+        # picotool reads `if (c) do` as `if (c) then` (a deliberate loophole), so a short-if body that starts
+        # with a do-block is only generated on request
+        b = self.nonempty_block(d + 1, in_loop, no_do_first='shortif_do_body' not in self.allow)
+        if self.p.toks[cond[2] + 1] == ('K', b'do'):
+            self.p.features.add('short-if-do-body')
         pairs = [('L', [cond, b])]
-        if self.chance(0.3):
+        last_item = b[3][0][1][-1]
+        if not (last_item[0] == 'N' and last_item[1] == TAG['StatIf'] and last_item[2]) and self.chance(0.3):
             self.p.features.add('short-if-else')
             pairs.append(self.kw(b'else'))
             pairs.append(('L', [('Z',), self.nonempty_block(d + 1, in_loop)]))
         self.oneline -= 1
+        self._si_blk = saved_si
         if not self.oneline:
             self.p.gap[len(self.p.toks)] = 'nl'
         return N('StatIf', [i, ('L', pairs)], short=True)
 
-    def nonempty_block(self, d, in_loop):
+    def nonempty_block(self, d, in_loop, no_do_first=False):
         while True:
             mark = len(self.p.toks)
             gaps = dict(self.p.gap)
             feats = set(self.p.features)
             b = self.block(d, in_loop)
-            if any(x[0] == 'N' for x in b[3][0][1]):
+            if any(x[0] == 'N' for x in b[3][0][1]) and not (no_do_first and self.p.toks[mark] == ('K', b'do')):
                 return b
             del self.p.toks[mark:]
             self.p.gap = gaps
@@ -620,7 +640,11 @@ def layout(p, rng, style='random'):
         c = p.gap.get(g)
         first, last = (g == 0), (g == n)
         need_sep = (not first and not last and not can_glue(toks[g - 1], toks[g]))
-        out.append(_trivia(rng, style, c, first, last, need_sep))
+        tr = _trivia(rng, style, c, first, last, need_sep)
+        # a comment directly after a token ending in '-' or '/' would fuse with it (`-` `--[[c]]` is the line comment `---[[c]]`)
+        if not first and tr[:2] in (b'--', b'//') and toks[g - 1][1][-1:] == tr[:1]:
+            tr = b' ' + tr
+        out.append(tr)
         if g < n:
             out.append(toks[g][1])
     return b''.join(out)
@@ -692,6 +716,11 @@ def _trivia(rng, style, c, first, last, need_sep):
     return _ws(rng) + rng.choice(BLOCK_COMMENTS_ML) + rng.choice([b'', b' ', b'\n'])
 
 
-def generate_program(rng, maxdepth=4, size=6, allow=()):
-    g = Gen(rng, maxdepth=maxdepth, size=size, allow=allow)
-    return g.program()
+def generate_program(rng, maxdepth=4, size=6, allow=(), force=()):
+    """force: features the program must have (rejection sampling, bounded)"""
+    for _ in range(300):
+        g = Gen(rng, maxdepth=maxdepth, size=size, allow=allow)
+        p = g.program()
+        if all(f in p.features for f in force):
+            return p
+    return p
